@@ -776,6 +776,8 @@ def check_lhs_coverage(case, domain, out, stats):
     dom = case["dom"]
     if e.get("cls") != "LHS" or case.get("prows") or G.free_vars(dom) or dom["k"] not in ("iv", "par"):
         return
+    if (case.get("fault") or {}).get("kinds"):
+        return      # a statement about the law of the proposals: adversarial draw values are by construction not covering
     one = {"_": np.zeros((1, 1))}
     bx, _ = G.box(dom, one)
     if dom["k"] == "par":
